@@ -191,6 +191,14 @@ class Check:
         self.build_ok = None
         self.build_log = ""
         self.known = load_known_findings()
+        # replays of an earlier run with the same (property, tier, seed) would otherwise survive
+        # next to the ones this run writes (file names are <tier>-<seed>-<index>.json)
+        import glob
+        for old in glob.glob(os.path.join(VERIF, "replays", self.prop, "%s-%d-*.json" % (self.tier, self.seed))):
+            try:
+                os.remove(old)
+            except OSError:
+                pass
 
     # ------------------------------------------------------------------ build
     def lean_targets(self):
